@@ -24,7 +24,7 @@ CHECKS = {
          "DESIGN.md 3/C02"),
  "C03": ("crash/hang-oracle fuzzing of Interface::poll by generated frame sequences (random, grammar, mutated, reflected) + liveness probe",
          "Interface over Ethernet, raw IP and IEEE 802.15.4 with a socket zoo (TCP listening/connecting/established incl. >64 KiB buffers, UDP, ICMP, raw, DNS with a pending query, DHCPv4, SLAAC, joined groups) is fed 1..64 steps per case: random bytes, grammar frames for every supported protocol (IPv4 options/fragments, IPv6 extension headers, ARP/NDISC/MLD/IGMP/DHCP/DNS, 6LoWPAN IPHC/NHC/FRAG trains), boundary/length/truncate/splice mutations with optional checksum fix-up, reflections answering the stack's own recent output, time advances to 1 h and application actions; polls with unlimited or 0..3-frame transmit budgets. Oracle: no poll panics inside smoltcp (attributed by backtrace), none hangs (10 s watchdog = exit 2; > 50000 frames in one poll with <= 2 KiB queued per socket = non-terminating egress loop), and afterwards a fresh neighbour is still resolved and its echo request answered on an address the interface provably still holds. Four defects found and fixed in /repo; 5 of 7 hand mutants killed (one equivalent) per sub-agent report.",
-         "Application misuse that smoltcp documents as a panic (IP version mismatch on send) is kept out of the generators; DHCP events are observed but not applied so the IPv4 address stays static; the probe uses the link-local/IPv4 address because SLAAC may legitimately remove a global one; watchdog expiry is inconclusive, never a violation.",
+         "Application misuse that smoltcp documents as a panic (IP version mismatch on send) is kept out of the generators; DHCP events are observed but not applied so the IPv4 address stays static; the probe uses the link-local/IPv4 address because SLAAC may legitimately remove a global one; a poll that consumes more than 10 s of CPU time without returning is a violation (CPU-time watchdog, vkit::hang); wall-clock stalls without CPU consumption are exit 2, never a violation.",
          "DESIGN.md 3/C03"),
  "C04": ("model-based PBT: scripted TCP peer vs reference receiver, independent TCP codec",
          "One socket is fed up to 200 generated segments placed around its advertised window by a scripted peer owning a fixed stream; a reference receiver built from the delivered segments and the windows read off the socket's own output checks: delivered bytes = stream prefix, no byte delivered that never arrived below the advertised edge, ACK never covers unreceived bytes/FIN, Finished only after all data, advertised edge within buffer. Exploration by random search with boundary-biased generators; no exhaustiveness claimed.",
